@@ -29,6 +29,7 @@ WORK = os.environ.get("VERIF_WORK") or os.path.join(HERE, ".work")
 EVID = os.environ.get("VERIF_EVIDENCE_DIR") or os.path.join(HERE, "evidence")
 REPL = os.environ.get("VERIF_REPLAY_DIR") or os.path.join(HERE, "replays")
 NCPU = int(os.environ.get("VERIF_JOBS", "16"))
+GRACE_AFTER_FAILURE = 45
 
 
 def tree_hash():
@@ -99,9 +100,12 @@ def run_jobs(prop, jobs, seed, tier, thash, rundir):
     running = []
     done = []
     last_journal_check = [time.time()]
+    first_failure = [None]
     it = iter(tasks)
     pending = True
     while pending or running:
+        if first_failure[0] is not None and time.time() - first_failure[0] > GRACE_AFTER_FAILURE:
+            pending = False
         while pending and len(running) < NCPU:
             try:
                 job, s = next(it)
@@ -121,8 +125,16 @@ def run_jobs(prop, jobs, seed, tier, thash, rundir):
         check_journals = now - last_journal_check[0] > 2.0
         if check_journals:
             last_journal_check[0] = now
+        cut = first_failure[0] is not None and now - first_failure[0] > GRACE_AFTER_FAILURE
         for p, job, s, out, t0, err in running:
             rc = p.poll()
+            if rc is None and cut:
+                # a violation has already been found: the other shards get a grace period, then the run is cut short
+                p.kill()
+                p.wait()
+                err.close()
+                done.append((job, s, None, "cut", ""))
+                continue
             if rc is None and check_journals:
                 # watchdog: a single case that does not come back (compiled code cannot be interrupted from inside)
                 limit = job.get("case_timeout", 60 if job.get("mode", "I") != "I" else 900)
@@ -149,6 +161,8 @@ def run_jobs(prop, jobs, seed, tier, thash, rundir):
             res = None
             if rc == 0 and os.path.exists(out):
                 res = json.load(open(out))
+                if res.get("failures") and first_failure[0] is None:
+                    first_failure[0] = time.time()
             if res is None and rc < 0 and job.get("crash_is_verdict"):
                 # the process was killed by a signal (memory corruption): the case it was executing is in its journal
                 try:
@@ -285,6 +299,9 @@ def main():
             if rc in ("hang", "crash"):
                 hangs.append((job, s, json.loads(err)))
                 continue
+            if rc == "cut":
+                inconclusive.append("%s shard %d was stopped after another shard had found a violation" % (job["name"], s))
+                continue
             if job.get("crash_is_verdict"):
                 continue
             harness_errors.append("%s shard %d exited %s\n%s" % (job["name"], s, rc, err))
@@ -309,8 +326,11 @@ def main():
             violations.append((f["case"], f["msg"], job["name"], None))
     # a case on which a worker stopped answering: confirmed in fresh processes before anything is claimed
     seen_hang = set()
-    for job, s, case in hangs[:4]:
+    for job, s, case in hangs[:3]:
         if canon(case) in seen_hang:
+            continue
+        if violations and not job.get("crash_is_verdict"):
+            inconclusive.append("%s shard %d stopped answering on a case (not confirmed: a violation was already found)" % (job["name"], s))
             continue
         seen_hang.add(canon(case))
         mode = job.get("mode", "I")
